@@ -257,14 +257,14 @@ Proof.
   destruct front; simpl; lia.
 Qed.
 
-Lemma fo_from_list_spec l w :
+Lemma fo_from_list_spec h l w :
   winv (cnt []) None w ->
-  let '(q, w') := fo_from_list P l w in
+  let '(q, w') := fo_from_list P h l w in
   winv (fo_own q) None w' /\ fu_ok false (fu_inner q).
 Proof.
   intros Hw. unfold fo_from_list.
-  pose proof (@fu_from_list_spec P HP false (index_children P l 0) w Hw) as H.
-  destruct (fu_from_list P false (index_children P l 0) w) as [u w1]. destruct H as (A & B & C).
+  pose proof (@fu_from_list_spec P HP false h (index_children P l 0) w Hw) as H.
+  destruct (fu_from_list P false h (index_children P l 0) w) as [u w1]. destruct H as (A & B & C).
   unfold fo_own; simpl. splits; auto.
 Qed.
 
